@@ -1012,6 +1012,10 @@ class Executor:
             clauses = c.exit_ensures
         else:
             clauses = c.ensures
+        # canary: the postconditions below are checked under this path condition; if no normal exit of the function is
+        # reachable (contradictory requires / model assumptions, an executor that lost the paths) every one of them would
+        # hold vacuously.  `False` must be refutable on some exit.
+        self.vc(c.id + '#exit-reachable', BoolVal(False), kind='canary')
         for i, h in enumerate(c.hints):
             f = z3bool(self.spec_bool(h, env))
             self.vcs.append(VC('%s#lemma-instance.%d' % (c.id, i), [], f, [], 'lemma',
